@@ -158,14 +158,22 @@ func gaussJordan(a, x Matrix, b Vector, submatrix []bool) error {
     // normalize ith element in b
     b.At(p[i]).Div(b.At(p[i]), c)
   }
-  if err := a.PermuteRows(p); err != nil {
-    return err
-  }
-  if err := x.PermuteRows(p); err != nil {
-    return err
-  }
-  if err := b.Permute(p); err != nil {
-    return err
+  // undo the row permutation: row i of the result is row p[i] of the
+  // permuted system (p is a permutation vector, not an interchange sequence)
+  for i := 0; i < n; i++ {
+    j := p[i]
+    for j < i {
+      j = p[j]
+    }
+    if j != i {
+      if err := a.SwapRows(i, j); err != nil {
+        return err
+      }
+      if err := x.SwapRows(i, j); err != nil {
+        return err
+      }
+      b.Swap(i, j)
+    }
   }
   return nil
 singular:
